@@ -320,25 +320,33 @@ theorem encoder_chunking_errors (given : Option Name) (cs : List (List Nat)) :
 
 /-! ## `reset()` -/
 
-/-- "reset the decoder / encoder to the initial state" (the `codecs` contract), `_partial`: holds when `encoding`
-was given to the constructor (and, for the decoder, `force` is true — the default): whatever was fed before, the
-reset machine is the fresh machine. The full statement (every `encoding` / `force`) is FALSE for the code: `reset`
-leaves the encoding detected from the previous input in `self.encoding` — `finding_reset_keeps_encoding`. -/
-theorem reset_is_fresh_partial (I : Inner) (J : InnerEnc) (g : Name) (cs : List (List Nat)) :
-    (runChunks I (.waiting (some g) true []) cs).1.reset true = .waiting (some g) true [] ∧
-    (erunChunks J (.waiting (some g) []) cs).1.reset = .waiting (some g) [] :=
-  ⟨reset_initial_forced I g cs, ereset_initial_given J g cs⟩
+/-- "reset the decoder / encoder to the initial state" (the `codecs` contract), full strength since the fix "reset()
+of the incremental css decoder and encoder forgets the encoding detected in the previous input" (before: only with
+`encoding` given and `force`; finding C07-reset-keeps-encoding): for every `encoding` / `force` given to the
+constructor and whatever was fed before, the reset machine is the fresh machine -/
+theorem reset_is_fresh (I : Inner) (J : InnerEnc) (given : Option Name) (force : Bool) (cs : List (List Nat)) :
+    (runChunks I (.waiting given force []) cs).1.reset given force = .waiting given force [] ∧
+    (erunChunks J (.waiting given []) cs).1.reset given = .waiting given [] :=
+  ⟨reset_initial given force _, ereset_initial given _⟩
 
-/-- the negation at a witness: a decoder created without `encoding` that has decoded a UTF-16 document (BOM) and
-is then reset decodes the UTF-8 bytes `a{}` as UTF-16 and raises, where a fresh decoder returns `a{}`; an encoder
-that has encoded `@charset "ascii";` and is reset refuses `é`, which a fresh encoder writes as UTF-8 -/
-theorem finding_reset_keeps_encoding :
-    (stepE cpyInner ((step cpyInner (.waiting none true []) [0xFF, 0xFE, 0x61, 0] true).1.reset true)
-        [0x61, 0x7B, 0x7D] true).map (·.2) = none ∧
-    (stepE cpyInner (.waiting none true []) [0x61, 0x7B, 0x7D] true).map (·.2) = some [0x61, 0x7B, 0x7D] ∧
-    (estepE cpyInnerEnc ((estep cpyInnerEnc (.waiting none []) (prefix10 ++ cps' "ascii" ++ [0x22, 0x3B]) true).1.reset)
-        [0xE9] true).map (·.2) = none ∧
-    (estepE cpyInnerEnc (.waiting none []) [0xE9] true).map (·.2) = some [0xC3, 0xA9] := by decide
+/-- so the document decoded / encoded after a `reset()` comes out as from a new object: the chunks of the first
+document have no influence on what the second one yields -/
+theorem reset_forgets_previous_document (I : Inner) (J : InnerEnc) (given : Option Name) (force : Bool)
+    (doc1 doc2 : List (List Nat)) :
+    runChunks I ((runChunks I (.waiting given force []) doc1).1.reset given force) doc2 =
+      runChunks I (.waiting given force []) doc2 ∧
+    erunChunks J ((erunChunks J (.waiting given []) doc1).1.reset given) doc2 =
+      erunChunks J (.waiting given []) doc2 := by
+  rw [reset_initial, ereset_initial]; exact ⟨rfl, rfl⟩
+
+/-- the former witness of C07-reset-keeps-encoding now behaves: a decoder created without `encoding` that has decoded
+a UTF-16 document (BOM) and is then reset decodes the UTF-8 bytes `a{}` as a fresh decoder does; an encoder that has
+encoded `@charset "ascii";` and is reset writes `é` as UTF-8 -/
+example :
+    (stepE cpyInner ((step cpyInner (.waiting none true []) [0xFF, 0xFE, 0x61, 0] true).1.reset none true)
+        [0x61, 0x7B, 0x7D] true).map (·.2) = some [0x61, 0x7B, 0x7D] ∧
+    (estepE cpyInnerEnc ((estep cpyInnerEnc (.waiting none []) (prefix10 ++ cps' "ascii" ++ [0x22, 0x3B]) true).1.reset none)
+        [0xE9] true).map (·.2) = some [0xC3, 0xA9] := by decide
 
 /-! ## round trip with auto-detection (no `encoding` argument on the decoding side) -/
 
